@@ -175,8 +175,8 @@ def gen_cases(tier, seed):
                     }
                 )
     # --- (B3) sentinel pairs and random longer series
-    for _ in range(150 if quick else 1500):
-        n = rng.randint(2, 12 if quick else 60)
+    for it_ in range(150 if quick else 1500):
+        n = rng.randint(2, 12 if quick else 60) if it_ % 10 else rng.randint(100, 300)
         dtype = rng.choice(["float32", "int16", "int64"])
         hi = 3000 if dtype != "int16" else 300
         nd1, nd2 = rng.choice([(-9999, 9999), (0, -1), (-32768, 32767), (7, -7), (-9999, 0)])
